@@ -93,11 +93,11 @@ Section Gen.
     | EOr x y =>
         let cy := fst (gen y) in
         (fst (gen x) ++ [DUP; RCJMP (1 + length cy); POP] ++ cy,
-         fun t f => let c := snd (gen y) t f in snd (gen x) (length c + t) 0 ++ c)
+         fun t f => let c := snd (gen y) t f in snd (dflt (fst (gen x))) (length c + t) 0 ++ c)
     | EAnd x y =>
         let cy := fst (gen y) in
         (fst (gen x) ++ [DUP; RCJMP 1; RJMP (1 + length cy); POP] ++ cy,
-         fun t f => let c := snd (gen y) t f in snd (gen x) 0 (length c + f) ++ c)
+         fun t f => let c := snd (gen y) t f in snd (dflt (fst (gen x))) 0 (length c + f) ++ c)
     | ECond c t f =>
         let ct := fst (gen t) in
         let cf := fst (gen f) in
